@@ -17,7 +17,7 @@ RULE = ("random shots with the decisive wind classes (tail 20-90 ft/s on slow pr
         "distance unit or as bare floats under a random preferred distance unit, no step (default), time steps; only fires "
         "that return normally and end moving forward are judged; non-trivial when a wind with a down-range component is "
         "present or the step does not divide the range")
-MUST_OBSERVE = ["fires_judged", "wind_tail", "wind_head", "wind_cross", "wind_none", "step_not_dividing", "step_bare_float",
+MUST_OBSERVE = ["calculators_with_global_step", "fires_judged", "wind_tail", "wind_head", "wind_cross", "wind_none", "step_not_dividing", "step_bare_float",
                 "default_step_fires", "time_step_fires", "last_step_overshot_min_step", "rows_checked", "muzzle_rows_checked",
                 "canted_muzzle_rows"]
 ASSUMPTIONS = ["requested range/step in feet are the library's own reading of the arguments (conversion accuracy is C06)",
@@ -42,7 +42,13 @@ def check_case(ctx, case):
     monitors.reset_all()
     spec = case["shot"]
     shot = build.shot(spec)
-    calc = build.calculator(case.get("config"))
+    if case.get("config") and case.get("step_via_global"):
+        # the maximum step comes from the process-wide setting in force when the calculator is created, not from its own dict
+        pb.set_global_max_calc_step_size(Distance.Foot(case["config"]["max_calc_step_size_feet"]))
+        calc = build.calculator(None)
+        ctx.count("calculators_with_global_step")
+    else:
+        calc = build.calculator(case.get("config"))
     max_step = (case.get("config") or {}).get("max_calc_step_size_feet", 0.5)
     rng_arg = dist_arg(case["range"])
     r_ft = PreferredUnits.distance(rng_arg) >> Distance.Foot
@@ -212,7 +218,12 @@ def gen_case(rng):
     if rng.random() < 0.12:
         case["time_step"] = rng.choice([0.001, 0.01, 0.05, round(rng.uniform(0.002, 0.2), 4)])
     if rng.random() < 0.1:
-        case["config"] = {"max_calc_step_size_feet": rng.choice([0.25, 1.0, 2.0])}
+        case["config"] = {"max_calc_step_size_feet": rng.choice([0.25, 1.0, 2.0, 0.1])}
+        case["step_via_global"] = rng.random() < 0.4
+        if case["config"]["max_calc_step_size_feet"] == 0.1 and case.get("step"):
+            # a fine solver step and a recording step just above it, on a short range (the rows are counted all the same)
+            case["step"]["ft"] = rng.choice([0.1, 0.2, 0.3])
+            case["range"]["ft"] = min(case["range"]["ft"], 30.0)
         if case.get("step") and case["step"]["ft"] < case["config"]["max_calc_step_size_feet"]:
             case["step"]["ft"] = case["config"]["max_calc_step_size_feet"]
     return case
